@@ -177,6 +177,8 @@ type Exec struct {
 	syncMaps     map[string]*MapObj
 	atomicVals   map[string]Value
 	rawQueries   map[string]*reqInfo
+	bufAliases   map[*Cell][]*BytesV
+	poolSeq      int
 }
 
 type findingRegion struct {
@@ -192,7 +194,7 @@ func (e *Engine) NewExec(solver *Portfolio, decisions []int8) *Exec {
 		contracts: map[string]bool{}, xmlTokens: map[string]*xmlToken{},
 		timeStrs: map[string]*timeStr{}, certs: map[string]*certInfo{},
 		strAttrs: map[string]map[string]bool{}, reqs: map[*Cell]*reqInfo{}, urlInfos: map[*Cell]*urlInfo{},
-		urlParts: map[string][]*Term{}, knownLen: map[string]*Term{}, onceDone: map[string]bool{}, syncMaps: map[string]*MapObj{}, atomicVals: map[string]Value{}, rawQueries: map[string]*reqInfo{}, forkSites: map[string]int{}, pcSyms: map[string]bool{}, pcKeys: map[string]bool{}, renders: map[string]*renderInfo{}, sigCtx: map[*Cell]*sigCtxInfo{}, privKeys: map[*Cell]*Term{},
+		urlParts: map[string][]*Term{}, knownLen: map[string]*Term{}, onceDone: map[string]bool{}, syncMaps: map[string]*MapObj{}, atomicVals: map[string]Value{}, rawQueries: map[string]*reqInfo{}, bufAliases: map[*Cell][]*BytesV{}, forkSites: map[string]int{}, pcSyms: map[string]bool{}, pcKeys: map[string]bool{}, renders: map[string]*renderInfo{}, sigCtx: map[*Cell]*sigCtxInfo{}, privKeys: map[*Cell]*Term{},
 	}
 }
 
